@@ -239,7 +239,9 @@ ASSUMPTIONS = {
             "v.lengths.copy()); an error common to fresh and derived arrays is invisible (that is C02's territory)",
             "half of the programs place writes freely, including writes through an array while an unread selection of "
             "it is alive (possible since the stale-alias finding R01 was repaired)",
-            "numpy is real and trusted; only raised/returned is compared for failing steps, not exception types"],
+            "numpy is real and trusted; only raised/returned is compared for failing steps, not exception types",
+            "float elements are multiples of 0.25 in a small range, so that every sum is exact whatever the "
+            "association order or memory alignment"],
     "C10": ["sampling, not enumeration", "observers are the read-only operations listed in the property; their "
             "results are dropped", "half of the programs place writes freely, including writes through an array while an "
             "unread selection of it is alive; nothing is attributed to a known finding any more (R01 is repaired)",
